@@ -10,6 +10,7 @@ import (
 	"path/filepath"
 	"sort"
 	"strings"
+	"sync"
 
 	"golang.org/x/tools/go/callgraph"
 	"golang.org/x/tools/go/callgraph/cha"
@@ -23,19 +24,20 @@ const Mod = "github.com/go-kid/ioc"
 
 // Ctx is one loaded program.
 type Ctx struct {
-	Repo    string
-	Tier    string
-	Fset    *token.FileSet
-	Pkgs    []*packages.Package
-	ByPath  map[string]*packages.Package
-	Prog    *ssa.Program
-	SSAPkg  map[string]*ssa.Package
-	AllFns  map[*ssa.Function]bool
-	Scope   []*ssa.Function // in-scope functions, sorted by name
-	inScope map[*ssa.Function]bool
-	cg      *callgraph.Graph
-	pdoms   map[*ssa.Function]*PostDom
-	astFn   map[*ssa.Function]ast.Node
+	Repo     string
+	Tier     string
+	Fset     *token.FileSet
+	Pkgs     []*packages.Package
+	ByPath   map[string]*packages.Package
+	Prog     *ssa.Program
+	SSAPkg   map[string]*ssa.Package
+	AllFns   map[*ssa.Function]bool
+	Scope    []*ssa.Function // in-scope functions, sorted by name
+	inScope  map[*ssa.Function]bool
+	cg       *callgraph.Graph
+	seamKeys []*types.Func
+	pdoms    map[*ssa.Function]*PostDom
+	astFn    map[*ssa.Function]ast.Node
 }
 
 // InScopePath says whether a package path belongs to the container proper (not tests, not demo mains).
@@ -140,17 +142,40 @@ func Load(repo, tier string) (*Ctx, error) {
 	if n == 0 {
 		return nil, fmt.Errorf("no in-scope packages of %s under %s", Mod, abs)
 	}
-	seamMemo := map[*types.Func]*ssa.Function{}
-	Seam = func(com *ssa.CallCommon) *ssa.Function {
-		if !com.IsInvoke() {
-			return nil
+	// internal seams of this program (a handful at most): resolved once, looked up by IsCallTo; Release drops them
+	for _, p := range pkgs {
+		if !InScopePath(p.PkgPath) {
+			continue
 		}
-		if f, ok := seamMemo[com.Method]; ok {
-			return f
+		sc := p.Types.Scope()
+		for _, name := range sc.Names() {
+			tn, ok := sc.Lookup(name).(*types.TypeName)
+			if !ok || tn.Exported() || tn.IsAlias() {
+				continue
+			}
+			iface, ok := tn.Type().Underlying().(*types.Interface)
+			if !ok {
+				continue
+			}
+			impls := c.Implementors(iface)
+			if len(impls) != 1 {
+				continue
+			}
+			for i := 0; i < iface.NumMethods(); i++ {
+				m := iface.Method(i)
+				fn := c.Prog.LookupMethod(types.NewPointer(impls[0]), m.Pkg(), m.Name())
+				if fn == nil || fn.Blocks == nil {
+					continue
+				}
+				if fn.Synthetic != "" {
+					if d := c.DeclaredMethod(impls[0], m.Name()); d != nil {
+						fn = d
+					}
+				}
+				seams.Store(m, fn)
+				c.seamKeys = append(c.seamKeys, m)
+			}
 		}
-		f := c.InternalImpl(com)
-		seamMemo[com.Method] = f
-		return f
 	}
 	return c, nil
 }
@@ -347,15 +372,35 @@ func IsInvoke(com *ssa.CallCommon, m *types.Func) bool {
 }
 
 // IsCallTo reports whether the call's static callee (origin-folded) is fn.
-// Seam resolves an invoke through an internal seam (see Ctx.InternalImpl); set by Load.
-var Seam func(*ssa.CallCommon) *ssa.Function
+// seams: interface method of an internal seam (see Ctx.InternalImpl) -> its unique implementation, for all loaded
+// programs (method objects are unique per load).
+var seams sync.Map
+
+// Seam resolves an invoke through an internal seam.
+func Seam(com *ssa.CallCommon) *ssa.Function {
+	if !com.IsInvoke() {
+		return nil
+	}
+	if f, ok := seams.Load(com.Method); ok {
+		return f.(*ssa.Function)
+	}
+	return nil
+}
+
+// Release drops what Load registered globally for this program.
+func (c *Ctx) Release() {
+	for _, k := range c.seamKeys {
+		seams.Delete(k)
+	}
+	c.seamKeys = nil
+}
 
 func IsCallTo(com *ssa.CallCommon, fn *ssa.Function) bool {
 	if fn == nil {
 		return false
 	}
 	cal := Callee(com)
-	if cal == nil && com.IsInvoke() && Seam != nil {
+	if cal == nil && com.IsInvoke() {
 		cal = Seam(com)
 	}
 	if cal == nil {
